@@ -7,8 +7,8 @@ namespace Octo.Plan
 open Octo
 
 /-- where an unused Map field may be removed without being noticed: it must not be a field of a datasource, a
-    group-by, a table valued function, a DISTINCT (that is a use), an ORDER BY / LIMIT node (its tie-break reads every
-    column), an outer join, or the source side of a lookup join -/
+    group-by, a table valued function, an ORDER BY / LIMIT node (its tie-break reads every column), an outer join, or
+    the source side of a lookup join (a DISTINCT over the field counts as a use, so nothing is asked there) -/
 def Removable (f : String) : Plan → Prop
   | .leaf s _ => f ∉ s.fields
   | .un s k src => Removable f src ∧
@@ -16,6 +16,7 @@ def Removable (f : String) : Plan → Prop
        | .map _ => True
        | .filter _ => True
        | .unnest _ => True
+       | .distinct => True
        | _ => f ∉ s.fields)
   | .bin s k l r => Removable f l ∧ Removable f r ∧
       (match k with
@@ -322,7 +323,12 @@ theorem rm_sim (db : Db) (f : String) : ∀ (p : Plan) (outer : List String) (p'
                 exact groupOut_names ho
             · rfl
       | distinct =>
-        have hfs : f ∉ s.fields := hrk
+        have hfs : f ∉ s.fields := by
+          intro hm
+          have : (s.fields.any fun x => x == f) = true := List.any_eq_true.mpr ⟨f, hm, by simp⟩
+          simp only at hukind
+          rw [this] at hukind
+          cases hukind
         simp only [UnGood] at hug
         have hfsrc : f ∉ src.fields := fun hm => hfs (by rw [hug]; exact hm)
         have h' : some (Plan.un s .distinct src') = some p' := by
